@@ -12,6 +12,9 @@ Clauses (the sentences of the property):
                                       transform / hyper-network needs `eq_params`) are accepted;
 * `scalar-and-length-one-time-differ`, `bare-and-full-parameters-differ`;
 * `shared-output-not-a-slice-of-the-common-network`;
+* `valid-configuration-rejected`     : every architecture / eq_type / slice combination the constructors
+                                      document is built (e.g. hyper-network lists with an activation
+                                      at either end);
 * `separable-grid-formula`, `separable-grid-shape` : SPINN = tensor grid of Σ_r Π_k f_k(x_k), one slot
                                       per declared output;
 * HYPERPINN: the convention's value is the inner network evaluated with the hyper-network's output
@@ -53,6 +56,12 @@ def checkValue (ref : Except String Vec) (o : Obs) : Option String :=
     else if shape != [out.length] then some "output-rank"
     else if out != v then some "value-differs-from-convention"
     else none
+
+/-- construction: a configuration the conventions admit (`expected = none`) must be built -/
+def checkCreate (expected observed : Option String) : Option String :=
+  match expected, observed with
+  | none, some _ => some "valid-configuration-rejected"
+  | _, _ => none
 
 def firstSome : List (Option String) → Option String
   | [] => none
